@@ -1,7 +1,8 @@
 import Driver.Util
 import Torf.Spec.Verify
 import Torf.Spec.VerifyFs
-open Lean Torf Torf.Missing Torf.Verify Torf.VerifyFs
+import Torf.Model.VerifyCall
+open Lean Torf Torf.Missing Torf.Verify Torf.VerifyFs Torf.VerifyCall
 namespace Driver.C02
 
 def flipMark : Nat := 549755813888   -- 2^39: element (file, off) whose byte was changed
@@ -137,10 +138,35 @@ def verifyfs (j : Json) : Except String Json := do
     ("noReadErr", jbool (NoReadErr fd)), ("noSilent", jbool (NoSilent sizes fd)),
     ("d10a", jbool (BadEmptyAtBoundary L sizes md))]
 
+/-- op `c02.verifycall`: the reply of `c02.verifyfs` plus the whole call with its history and
+    gate: {…, tpath: null | string, interval: int, clock: [int, …]} ↦ "nocbG", "cbG", "callsG" -/
+def verifycall (j : Json) : Except String Json := do
+  let base ← verifyfs j
+  let L ← getNat j "L"
+  let sizes ← getNats j "sizes"
+  let states ← getArr j "disk"
+  let flipsJ ← getArr j "flips"
+  let flips ← flipsJ.mapM fun f => do
+    let a ← f.getArr?
+    if h : a.size = 2 then return ((← a[0].getNat?), (← a[1].getNat?)) else throw "flip must be a pair"
+  let single ← getBool j "single"
+  let pathIsDir ← getBool j "pathIsDir"
+  let fd ← mkFs sizes states flips
+  let stored : List (List Nat) := chunks L (mkFiles sizes).flatten
+  let H : List Nat → List Nat := id
+  let tpath : Option String := (getStr j "tpath").toOption
+  let interval ← getInt j "interval"
+  let clock ← getInts j "clock"
+  let (r0, _) := verifyCall H L sizes fd stored false single pathIsDir tpath interval clock
+  let (r1, calls) := verifyCall H L sizes fd stored true single pathIsDir tpath interval clock
+  return base.mergeObj (jobj [
+    ("nocbG", resJson r0), ("cbG", resJson r1), ("callsG", jarr (calls.map callJson))])
+
 def handle (op : String) (j : Json) : Except String Json :=
   match op with
   | "c02.verify" => verify j
   | "c02.verifyfs" => verifyfs j
+  | "c02.verifycall" => verifycall j
   | _ => throw s!"unknown op {op}"
 
 end Driver.C02
